@@ -123,7 +123,9 @@ func (s RateLimitedTokenRequestState) FinalizeToken(encryptedtokenResponse []byt
 	}
 
 	// salt = concat(enc, response_nonce)
-	salt := append(s.encapEnc, encryptedtokenResponse[:responseNonceLen]...)
+	salt := make([]byte, 0, len(s.encapEnc)+responseNonceLen)
+	salt = append(salt, s.encapEnc...)
+	salt = append(salt, encryptedtokenResponse[:responseNonceLen]...)
 
 	// prk = Extract(salt, secret)
 	prk := s.nameKey.suite.KDF.Extract(salt, s.encapSecret)
